@@ -1,5 +1,590 @@
-(* Proofs/InputProofs.v — under construction *)
+(* Proofs/InputProofs.v — the INPUT statement (C08).
+
+   Whenever a program reaches INPUT the interpreter reports that it awaits
+   input, having changed nothing but the state flag (and the hook counters /
+   the trace record); the cursor is left ON the INPUT token, so that after a
+   reply exactly the INPUT statement is executed again, wherever it sits.
+   A reply whose first item suits the target is stored exactly as the
+   assignment of that value would store it; surplus items give EXTRA IGNORED;
+   text offered to a numeric target gives REENTER and the same request again.
+
+   Layout
+     0. helpers (token equality, coerce_data, the trace prefix, rewind)
+     1. the engine: evaluate_statement on an INPUT token, for any target
+     2. scalar targets:   input_awaits, input_accepts_scalar, input_reenter
+     3. array targets:    the same under an abstract subscript evaluation,
+                          and concretely for subscripts C02's theorem covers
+     4. the host API:     run_next_statement / continue_evaluating / provide_input
+     5. non-vacuity examples (vm_compute) *)
 From Coq Require Import List NArith ZArith Bool Lia.
 From Abasic Require Import Model.Bytes Model.Num Model.Token Model.Data Model.Lexer Gen.Tables
-     Model.State Model.Eval Model.Interp Proofs.Monad Proofs.Frames Proofs.StoreProofs.
+     Model.State Model.Eval Model.Interp Proofs.Monad Proofs.Frames Proofs.StoreProofs
+     Proofs.ExprSem Proofs.Safety.
 Import ListNotations.
+Local Open Scope nat_scope.
+
+(* ------------------------------------------------------------------ *)
+(* 0. Helpers *)
+
+Lemma token_eqb_input t : token_eqb t TInput = true <-> t = TInput.
+Proof. destruct t; cbn; split; intros H; try reflexivity; discriminate. Qed.
+
+Lemma token_eqb_lparen t : token_eqb t TLeftParen = true <-> t = TLeftParen.
+Proof. destruct t; cbn; split; intros H; try reflexivity; discriminate. Qed.
+
+Lemma token_eqb_input_false t : t <> TInput -> token_eqb t TInput = false.
+Proof.
+  intros H. destruct (token_eqb t TInput) eqn:E; [|reflexivity].
+  apply token_eqb_input in E. contradiction.
+Qed.
+
+(* Value::coerce_from_data_element always produces a value of the variable's type *)
+Lemma coerce_data_type_matches v e val : coerce_data v e = Ok val -> type_matches v val = true.
+Proof.
+  unfold coerce_data, type_matches. destruct (ends_with_dollar v) eqn:E, e; intros H;
+    inversion H; subst; try rewrite E; reflexivity.
+Qed.
+
+(* ... and fails in exactly one way: text offered to a numeric variable *)
+Lemma coerce_data_cases v e :
+  (exists val, coerce_data v e = Ok val)
+  \/ (coerce_data v e = Err EDataTypeMismatch None
+      /\ ends_with_dollar v = false /\ exists t, e = DStr t).
+Proof.
+  unfold coerce_data. destruct (ends_with_dollar v), e; eauto.
+Qed.
+
+Lemma coerce_data_reenter v t : ends_with_dollar v = false ->
+  coerce_data v (DStr t) = Err EDataTypeMismatch None.
+Proof. unfold coerce_data. intros ->. reflexivity. Qed.
+
+Lemma coerce_data_number v x : ends_with_dollar v = false -> coerce_data v (DNum x) = Ok (VNum x).
+Proof. unfold coerce_data. intros ->. reflexivity. Qed.
+
+Lemma coerce_data_string v t : ends_with_dollar v = true -> coerce_data v (DStr t) = Ok (VStr t).
+Proof. unfold coerce_data. intros ->. reflexivity. Qed.
+
+(* the reply parser never returns an empty list *)
+Lemma parse_data_nonempty text : exists first more consumed, parse_data text = (first :: more, consumed).
+Proof.
+  unfold parse_data. pose proof (dp_run_nonempty (utf8_chars text) false [] [] 0) as H.
+  destruct (dp_run (utf8_chars text) false [] [] 0) as [[|first more] consumed]; cbn [fst] in H;
+    [congruence|eauto].
+Qed.
+
+(* The record a traced statement starts with. *)
+Definition trace_of (s : interp) : list output :=
+  if enable_tracing s
+  then match loc_line (loc s) with Some n => [OTrace n] | None => [] end
+  else [].
+
+(* EXTRA IGNORED, or nothing *)
+Definition excess_of (more : list data_elem) (consumed : nat) (text : bytes) : bool :=
+  match more with [] => Nat.ltb consumed (length text) | _ => true end.
+
+Definition extra_of (more : list data_elem) (consumed : nat) (text : bytes) : list output :=
+  if excess_of more consumed text then [OExtraIgnored] else [].
+
+Lemma excess_of_iff more consumed text :
+  excess_of more consumed text = true <-> (more <> [] \/ consumed < length text).
+Proof.
+  unfold excess_of. destruct more as [|x more].
+  - rewrite Nat.ltb_lt. split; [auto|]. intros [H|H]; [congruence|exact H].
+  - split; [intros _; left; discriminate|reflexivity].
+Qed.
+
+Lemma extra_of_yes more consumed text :
+  (more <> [] \/ consumed < length text) -> extra_of more consumed text = [OExtraIgnored].
+Proof. intros H. apply excess_of_iff in H. unfold extra_of. rewrite H. reflexivity. Qed.
+
+Lemma extra_of_no consumed text : length text <= consumed -> extra_of [] consumed text = [].
+Proof.
+  intros H. unfold extra_of, excess_of. destruct (Nat.ltb_spec consumed (length text)); [lia|reflexivity].
+Qed.
+
+Lemma evaluate_statement_S f n :
+  evaluate_statement (S f) n =
+  if Nat.eqb n max_nesting then fail EStackOverflow
+  else evaluate_statement_body f (S n) (evaluate_statement f (S n)).
+Proof. reflexivity. Qed.
+
+(* a state is the canonical form of itself *)
+Lemma at_idx_here s o r :
+  set_reads r (set_outputs o s) = at_idx s (loc_idx (loc s)) r o.
+Proof. destruct s as [? ? ? [? ?] ? ? ? ? ? ? ? ? ? ? ? ? ? ? ?]; reflexivity. Qed.
+
+Lemma cur_tokens_ext s s' :
+  st_toks s' = st_toks s -> immediate s' = immediate s -> loc_line (loc s') = loc_line (loc s) ->
+  fst (cur_tokens s') = fst (cur_tokens s).
+Proof.
+  intros H1 H2 H3. unfold cur_tokens. rewrite !bind_get. unfold tokens_for_line.
+  rewrite H1, H2, H3. destruct (loc_line (loc s)) as [n|]; [|reflexivity].
+  destruct (toks_get n (st_toks s)); reflexivity.
+Qed.
+
+(* ------------------------------------------------------------------ *)
+(* 1. The engine *)
+
+Section Engine.
+  Variable s : interp.
+  Variable toks : list token.
+  Hypothesis Htoks : fst (cur_tokens s) = Ok toks.
+
+  (* rewind_before_token(Input): from any cursor [j], the loop stops on the
+     highest index below [j] that holds an INPUT token. *)
+  Lemma rewind_loop_at : forall j i,
+    i < j -> nth_error toks i = Some TInput ->
+    (forall k, i < k < j -> nth_error toks k <> Some TInput) ->
+    forall j' r o,
+      rewind_loop j TInput (at_idx s j' r o) = (Ok tt, at_idx s i (r + (j - i)) o).
+  Proof.
+    induction j as [|j IH]; intros i Hij Hi Hno j' r o; [lia|].
+    cbn [rewind_loop]. rewrite bind_modify.
+    change (set_loc _ (at_idx s j' r o)) with (at_idx s j r o).
+    erewrite bind_ok by apply (peek_is_at s toks Htoks).
+    destruct (Nat.eq_dec j i) as [->|Hne].
+    - rewrite Hi. change (token_eqb TInput TInput) with true. cbv iota.
+      replace (r + (S i - i)) with (S r) by lia. reflexivity.
+    - assert (E : match nth_error toks j with Some t => token_eqb t TInput | None => false end = false).
+      { destruct (nth_error toks j) as [t|] eqn:Ej; [|reflexivity].
+        apply token_eqb_input_false. intros ->. apply (Hno j); [lia|exact Ej]. }
+      rewrite E. rewrite (IH i) by (try assumption; try lia; intros k Hk; apply Hno; lia).
+      replace (S r + (j - i)) with (r + (S j - i)) by lia. reflexivity.
+  Qed.
+
+  Lemma await_at i j r o :
+    i < j -> nth_error toks i = Some TInput ->
+    (forall k, i < k < j -> nth_error toks k <> Some TInput) ->
+    rewind_program_and_await_input (at_idx s j r o)
+    = (Ok tt, set_state AwaitingInput (at_idx s i (r + (j - i)) o)).
+  Proof.
+    intros Hij Hi Hno. unfold rewind_program_and_await_input, rewind_before_token.
+    rewrite bind_assoc, bind_get.
+    change (loc_idx (loc (at_idx s j r o))) with j.
+    erewrite bind_ok by (apply rewind_loop_at; eassumption).
+    reflexivity.
+  Qed.
+
+  (* the trace prefix of evaluate_statement *)
+  Lemma trace_at i r o :
+    (if enable_tracing s
+     then (l <- get_line_number ;;
+           match l with Some n => push_output (OTrace n) | None => ret tt end)
+     else ret tt) (at_idx s i r o)
+    = (Ok tt, at_idx s i r (o ++ trace_of s)).
+  Proof.
+    unfold trace_of. destruct (enable_tracing s).
+    - unfold get_line_number. rewrite bind_assoc, bind_get, bind_ret.
+      change (loc_line (loc (at_idx s i r o))) with (loc_line (loc s)).
+      destruct (loc_line (loc s)); [reflexivity|]. rewrite app_nil_r. reflexivity.
+    - rewrite app_nil_r. reflexivity.
+  Qed.
+
+  (* evaluate_statement on an INPUT token: trace, consume the token, dispatch *)
+  Lemma statement_is_input f n i r o :
+    nth_error toks i = Some TInput -> n < max_nesting ->
+    evaluate_statement (S f) n (at_idx s i r o)
+    = evaluate_input_statement f (S n) (at_idx s (S i) (S r) (o ++ trace_of s)).
+  Proof.
+    intros Hi Hn. rewrite evaluate_statement_S.
+    replace (Nat.eqb n max_nesting) with false by (symmetry; apply Nat.eqb_neq; lia).
+    unfold evaluate_statement_body. rewrite bind_get.
+    change (enable_tracing (at_idx s i r o)) with (enable_tracing s).
+    erewrite bind_ok by apply trace_at.
+    erewrite bind_ok by (apply (next_some s toks Htoks); exact Hi).
+    reflexivity.
+  Qed.
+End Engine.
+
+Section Engine2.
+  Variable s : interp.
+  Variable toks : list token.
+  Hypothesis Htoks : fst (cur_tokens s) = Ok toks.
+
+  (* Interpreter::take_input *)
+  Lemma take_input_none i r o : input s = None ->
+    take_input (at_idx s i r o) = (Ok None, at_idx s i r o).
+  Proof.
+    intros Hin. unfold take_input. rewrite bind_get.
+    change (input (at_idx s i r o)) with (input s). rewrite Hin. reflexivity.
+  Qed.
+
+  Lemma take_input_some i r o text elems c :
+    input s = Some text -> parse_data text = (elems, c) ->
+    take_input (at_idx s i r o)
+    = (Ok (Some (elems, Nat.ltb c (length text))), at_idx (set_input None s) i r o).
+  Proof.
+    intros Hin Hp. unfold take_input. rewrite bind_get.
+    change (input (at_idx s i r o)) with (input s). rewrite Hin.
+    rewrite bind_modify, Hp. reflexivity.
+  Qed.
+
+  Lemma cur_tokens_taken : fst (cur_tokens (set_input None s)) = Ok toks.
+  Proof. rewrite <- Htoks. apply cur_tokens_ext; reflexivity. Qed.
+
+  (* --- no reply pending: suspend --- *)
+  Lemma input_awaits_at f n i r o :
+    nth_error toks i = Some TInput -> n < max_nesting -> input s = None ->
+    evaluate_statement (S f) n (at_idx s i r o)
+    = (Ok tt, set_state AwaitingInput (at_idx s i (S (S r)) (o ++ trace_of s))).
+  Proof.
+    intros Hi Hn Hin. rewrite (statement_is_input s toks Htoks) by assumption.
+    unfold evaluate_input_statement.
+    erewrite bind_ok by (apply take_input_none; exact Hin).
+    rewrite (await_at s toks Htoks i (S i)) by (try assumption; lia).
+    replace (S r + (S i - i)) with (S (S r)) by lia. reflexivity.
+  Qed.
+
+  (* --- a reply is pending: parse the target, then store or ask again --- *)
+  Definition taken (i r : nat) (o : list output) : interp :=
+    at_idx (set_input None s) (S i) (S r) (o ++ trace_of s).
+
+  Lemma input_reply_at f n i r o text first more consumed lv s2 :
+    nth_error toks i = Some TInput -> n < max_nesting ->
+    input s = Some text -> parse_data text = (first :: more, consumed) ->
+    parse_lvalue f (S n) (taken i r o) = (Ok lv, s2) ->
+    evaluate_statement (S f) n (at_idx s i r o)
+    = match coerce_data (lv_sym lv) first with
+      | Ok val =>
+          (assign_value lv val ;;;
+           if excess_of more consumed text then push_output OExtraIgnored else ret tt) s2
+      | Err EDataTypeMismatch _ => (push_output OReenter ;;; rewind_program_and_await_input) s2
+      | Err e l => (Err e l, s2)
+      | _ => (Panic PCellIndex, s2)
+      end.
+  Proof.
+    intros Hi Hn Hin Hp Hlv. rewrite (statement_is_input s toks Htoks) by assumption.
+    unfold evaluate_input_statement.
+    erewrite bind_ok by (apply take_input_some; eassumption).
+    fold (taken i r o). cbv iota beta. rewrite (bind_ok _ _ _ _ _ Hlv).
+    unfold excess_of.
+    destruct (coerce_data (lv_sym lv) first) as [val|e l|p| |]; try reflexivity.
+    destruct e; reflexivity.
+  Qed.
+
+  (* the target of a scalar INPUT *)
+  Lemma parse_lvalue_scalar_at f n j r o v :
+    nth_error toks j = Some (TSymbol v) -> nth_error toks (S j) <> Some TLeftParen ->
+    parse_lvalue f n (at_idx s j r o) = (Ok (mklv v None), at_idx s (S j) (S (S r)) o).
+  Proof.
+    intros Hv Hnp. unfold parse_lvalue.
+    erewrite bind_ok by (apply (next_some s toks Htoks); exact Hv).
+    unfold parse_optional_array_index. rewrite bind_assoc.
+    erewrite bind_ok by apply (peek_is_at s toks Htoks).
+    assert (E : match nth_error toks (S j) with Some t => token_eqb t TLeftParen | None => false end = false).
+    { destruct (nth_error toks (S j)) as [t|]; [|reflexivity].
+      destruct (token_eqb t TLeftParen) eqn:E; [|reflexivity].
+      apply token_eqb_lparen in E. subst t. congruence. }
+    rewrite E. reflexivity.
+  Qed.
+End Engine2.
+
+(* ------------------------------------------------------------------ *)
+(* 2. Scalar targets.
+
+   Throughout: [toks] are the tokens of the current line, the cursor
+   [loc_idx (loc s)] is ON the INPUT token; [trace_of s] is the one TRACE
+   record a numbered line emits when tracing is on (else nothing). *)
+
+Lemma at_idx_start s : at_idx s (loc_idx (loc s)) (reads s) (outputs s) = s.
+Proof. apply at_idx_self. Qed.
+
+Lemma awaiting_state_eq s r o :
+  set_state AwaitingInput (at_idx (set_input None s) (loc_idx (loc s)) r o)
+  = set_reads r (set_state AwaitingInput (set_input None (set_outputs o s))).
+Proof. destruct s as [? ? ? [? ?] ? ? ? ? ? ? ? ? ? ? ? ? ? ? ?]; reflexivity. Qed.
+
+(* C08, first sentence.  Nothing but the state flag (and the hook counter, and
+   the trace record) changes; the cursor is back ON the INPUT token. *)
+Theorem input_awaits : forall fuel n s toks,
+  fst (cur_tokens s) = Ok toks ->
+  nth_error toks (loc_idx (loc s)) = Some TInput ->
+  input s = None ->
+  1 <= fuel -> n < max_nesting ->
+  evaluate_statement fuel n s
+  = (Ok tt, set_reads (2 + reads s)
+              (set_state AwaitingInput (set_outputs (outputs s ++ trace_of s) s))).
+Proof.
+  intros fuel n s toks Htoks Hi Hin Hf Hn. destruct fuel as [|f]; [lia|].
+  rewrite <- (at_idx_start s) at 1.
+  rewrite (input_awaits_at s toks Htoks) by assumption.
+  f_equal. destruct s as [? ? ? [? ?] ? ? ? ? ? ? ? ? ? ? ? ? ? ? ?]; reflexivity.
+Qed.
+
+(* the same, field by field *)
+Corollary input_awaits_frame : forall fuel n s toks,
+  fst (cur_tokens s) = Ok toks ->
+  nth_error toks (loc_idx (loc s)) = Some TInput ->
+  input s = None ->
+  1 <= fuel -> n < max_nesting ->
+  let r := evaluate_statement fuel n s in
+  let s' := snd r in
+  fst r = Ok tt
+  /\ state s' = AwaitingInput
+  /\ loc s' = loc s                       (* the cursor is ON the INPUT token again *)
+  /\ input s' = None
+  /\ outputs s' = outputs s ++ trace_of s
+  /\ reads s' = 2 + reads s
+  /\ variables s' = variables s /\ arrays s' = arrays s /\ stack s' = stack s
+  /\ loops s' = loops s /\ data_it s' = data_it s /\ functions s' = functions s
+  /\ breakpoint s' = breakpoint s /\ rng s' = rng s
+  /\ st_toks s' = st_toks s /\ st_keys s' = st_keys s /\ immediate s' = immediate s
+  /\ enable_warnings s' = enable_warnings s /\ enable_tracing s' = enable_tracing s
+  /\ pow_oracle s' = pow_oracle s.
+Proof.
+  intros fuel n s toks Htoks Hi Hin Hf Hn. cbv zeta.
+  rewrite (input_awaits fuel n s toks) by assumption. cbn [fst snd].
+  repeat split; try reflexivity. exact Hin.
+Qed.
+
+(* C08, second sentence: the semantic form.  With a reply pending, the
+   statement is: consume the reply and the two tokens INPUT [v], then do exactly
+   what the assignment statement does with the value ([assign_value], the
+   function [evaluate_assignment_statement] ends with), then EXTRA IGNORED if
+   anything of the reply is left. *)
+Theorem input_accept_is_assignment : forall fuel n s toks v text first more consumed val,
+  fst (cur_tokens s) = Ok toks ->
+  let i := loc_idx (loc s) in
+  nth_error toks i = Some TInput ->
+  nth_error toks (S i) = Some (TSymbol v) ->
+  nth_error toks (S (S i)) <> Some TLeftParen ->
+  input s = Some text ->
+  parse_data text = (first :: more, consumed) ->
+  coerce_data v first = Ok val ->
+  1 <= fuel -> n < max_nesting ->
+  evaluate_statement fuel n s
+  = (assign_value (mklv v None) val ;;;
+     if excess_of more consumed text then push_output OExtraIgnored else ret tt)
+      (set_input None (at_idx s (S (S i)) (3 + reads s) (outputs s ++ trace_of s))).
+Proof.
+  intros fuel n s toks v text first more consumed val Htoks i Hi Hv Hnp Hin Hp Hc Hf Hn.
+  destruct fuel as [|f]; [lia|].
+  rewrite <- (at_idx_start s) at 1. fold i.
+  erewrite (input_reply_at s toks Htoks) by
+    (try eassumption;
+     apply (parse_lvalue_scalar_at _ toks (cur_tokens_taken s toks Htoks)); eassumption).
+  cbn [lv_sym]. rewrite Hc. reflexivity.
+Qed.
+
+(* ... and the explicit state. *)
+Theorem input_accepts_scalar : forall fuel n s toks v text first more consumed val,
+  fst (cur_tokens s) = Ok toks ->
+  let i := loc_idx (loc s) in
+  nth_error toks i = Some TInput ->
+  nth_error toks (S i) = Some (TSymbol v) ->
+  nth_error toks (S (S i)) <> Some TLeftParen ->
+  input s = Some text ->
+  parse_data text = (first :: more, consumed) ->
+  coerce_data v first = Ok val ->
+  1 <= fuel -> n < max_nesting ->
+  evaluate_statement fuel n s
+  = (Ok tt,
+     set_outputs (outputs s ++ trace_of s ++ extra_of more consumed text)
+       (set_variables (alist_set v val (variables s))
+          (set_input None
+             (set_reads (3 + reads s)
+                (set_loc (mkloc (loc_line (loc s)) (S (S i))) s))))).
+Proof.
+  intros fuel n s toks v text first more consumed val Htoks i Hi Hv Hnp Hin Hp Hc Hf Hn.
+  rewrite (input_accept_is_assignment fuel n s toks v text first more consumed val) by assumption.
+  fold i. unfold assign_value. cbn [lv_index lv_sym]. unfold variables_set.
+  rewrite (coerce_data_type_matches _ _ _ Hc). rewrite bind_modify.
+  unfold extra_of. destruct (excess_of more consumed text).
+  - unfold push_output, modify. f_equal.
+    destruct s as [? ? ? [? ?] ? ? ? ? ? ? ? ? ? ? ? ? ? ? ?]; cbn. rewrite <- app_assoc. reflexivity.
+  - unfold ret. f_equal.
+    destruct s as [? ? ? [? ?] ? ? ? ? ? ? ? ? ? ? ? ? ? ? ?]; cbn. rewrite app_nil_r. reflexivity.
+Qed.
+
+Corollary input_accepts_scalar_frame : forall fuel n s toks v text first more consumed val,
+  fst (cur_tokens s) = Ok toks ->
+  let i := loc_idx (loc s) in
+  nth_error toks i = Some TInput ->
+  nth_error toks (S i) = Some (TSymbol v) ->
+  nth_error toks (S (S i)) <> Some TLeftParen ->
+  input s = Some text ->
+  parse_data text = (first :: more, consumed) ->
+  coerce_data v first = Ok val ->
+  1 <= fuel -> n < max_nesting ->
+  let r := evaluate_statement fuel n s in
+  let s' := snd r in
+  fst r = Ok tt
+  /\ variables s' = alist_set v val (variables s)
+  /\ variables s' = variables (snd (variables_set v val s))        (* what LET v = val stores *)
+  /\ type_matches v val = true
+  /\ input s' = None
+  /\ loc s' = mkloc (loc_line (loc s)) (S (S i))                   (* just after the target *)
+  /\ outputs s' = outputs s ++ trace_of s ++ extra_of more consumed text
+  /\ (extra_of more consumed text = [OExtraIgnored] <-> (more <> [] \/ consumed < length text))
+  /\ (extra_of more consumed text = [] <-> ~ (more <> [] \/ consumed < length text))
+  /\ reads s' = 3 + reads s
+  /\ state s' = state s
+  /\ arrays s' = arrays s /\ stack s' = stack s
+  /\ loops s' = loops s /\ data_it s' = data_it s /\ functions s' = functions s
+  /\ breakpoint s' = breakpoint s /\ rng s' = rng s
+  /\ st_toks s' = st_toks s /\ st_keys s' = st_keys s /\ immediate s' = immediate s
+  /\ enable_warnings s' = enable_warnings s /\ enable_tracing s' = enable_tracing s
+  /\ pow_oracle s' = pow_oracle s.
+Proof.
+  intros fuel n s toks v text first more consumed val Htoks i Hi Hv Hnp Hin Hp Hc Hf Hn. cbv zeta.
+  rewrite (input_accepts_scalar fuel n s toks v text first more consumed val) by assumption.
+  cbn [fst snd]. pose proof (coerce_data_type_matches _ _ _ Hc) as Htm.
+  assert (Hx : extra_of more consumed text = [OExtraIgnored] <-> (more <> [] \/ consumed < length text)).
+  { rewrite <- excess_of_iff. unfold extra_of. destruct (excess_of more consumed text);
+      split; intros H; try reflexivity; discriminate. }
+  assert (Hy : extra_of more consumed text = [] <-> ~ (more <> [] \/ consumed < length text)).
+  { rewrite <- excess_of_iff. unfold extra_of. destruct (excess_of more consumed text);
+      split; intros H; try reflexivity; try discriminate; congruence. }
+  repeat (split; [reflexivity|]).
+  split. { unfold variables_set. rewrite Htm. reflexivity. }
+  split; [exact Htm|].
+  repeat (split; [reflexivity|]).
+  split; [exact Hx|]. split; [exact Hy|].
+  repeat split; reflexivity.
+Qed.
+
+(* C08, third sentence: text offered to a numeric variable.  REENTER, and the
+   state is the one [input_awaits] describes: awaiting input, the cursor back ON
+   the INPUT token, the reply consumed, everything else untouched. *)
+Theorem input_reenter : forall fuel n s toks v text first more consumed,
+  fst (cur_tokens s) = Ok toks ->
+  let i := loc_idx (loc s) in
+  nth_error toks i = Some TInput ->
+  nth_error toks (S i) = Some (TSymbol v) ->
+  nth_error toks (S (S i)) <> Some TLeftParen ->
+  input s = Some text ->
+  parse_data text = (first :: more, consumed) ->
+  coerce_data v first = Err EDataTypeMismatch None ->
+  1 <= fuel -> n < max_nesting ->
+  evaluate_statement fuel n s
+  = (Ok tt,
+     set_reads (5 + reads s)
+       (set_state AwaitingInput
+          (set_input None
+             (set_outputs (outputs s ++ trace_of s ++ [OReenter]) s)))).
+Proof.
+  intros fuel n s toks v text first more consumed Htoks i Hi Hv Hnp Hin Hp Hc Hf Hn.
+  destruct fuel as [|f]; [lia|].
+  rewrite <- (at_idx_start s) at 1. fold i.
+  pose proof (cur_tokens_taken s toks Htoks) as Htoks1.
+  erewrite (input_reply_at s toks Htoks) by
+    (try eassumption; apply (parse_lvalue_scalar_at _ toks Htoks1); eassumption).
+  cbn [lv_sym]. rewrite Hc.
+  unfold push_output. rewrite bind_modify.
+  match goal with
+  | |- rewind_program_and_await_input ?st = _ =>
+      change st with (at_idx (set_input None s) (S (S i)) (S (S (S (reads s))))
+                             ((outputs s ++ trace_of s) ++ [OReenter]))
+  end.
+  rewrite (await_at _ toks Htoks1 i) by (try assumption; try lia; intros k Hk;
+    assert (k = S i) by lia; subst k; rewrite Hv; discriminate).
+  replace (S (S (S (reads s))) + (S (S i) - i)) with (5 + reads s) by lia.
+  rewrite <- app_assoc. f_equal. apply awaiting_state_eq.
+Qed.
+
+(* the premise in the words of the property: a numeric variable, a text item *)
+Corollary input_reenter_text : forall fuel n s toks v text t more consumed,
+  fst (cur_tokens s) = Ok toks ->
+  let i := loc_idx (loc s) in
+  nth_error toks i = Some TInput ->
+  nth_error toks (S i) = Some (TSymbol v) ->
+  nth_error toks (S (S i)) <> Some TLeftParen ->
+  input s = Some text ->
+  parse_data text = (DStr t :: more, consumed) ->
+  ends_with_dollar v = false ->
+  1 <= fuel -> n < max_nesting ->
+  evaluate_statement fuel n s
+  = (Ok tt,
+     set_reads (5 + reads s)
+       (set_state AwaitingInput
+          (set_input None
+             (set_outputs (outputs s ++ trace_of s ++ [OReenter]) s)))).
+Proof.
+  intros. eapply input_reenter; eauto. apply coerce_data_reenter; assumption.
+Qed.
+
+Corollary input_reenter_frame : forall fuel n s toks v text first more consumed,
+  fst (cur_tokens s) = Ok toks ->
+  let i := loc_idx (loc s) in
+  nth_error toks i = Some TInput ->
+  nth_error toks (S i) = Some (TSymbol v) ->
+  nth_error toks (S (S i)) <> Some TLeftParen ->
+  input s = Some text ->
+  parse_data text = (first :: more, consumed) ->
+  coerce_data v first = Err EDataTypeMismatch None ->
+  1 <= fuel -> n < max_nesting ->
+  let r := evaluate_statement fuel n s in
+  let s' := snd r in
+  fst r = Ok tt
+  /\ state s' = AwaitingInput
+  /\ loc s' = loc s                       (* ON the INPUT token again *)
+  /\ input s' = None
+  /\ outputs s' = outputs s ++ trace_of s ++ [OReenter]
+  /\ reads s' = 5 + reads s
+  /\ variables s' = variables s /\ arrays s' = arrays s /\ stack s' = stack s
+  /\ loops s' = loops s /\ data_it s' = data_it s /\ functions s' = functions s
+  /\ breakpoint s' = breakpoint s /\ rng s' = rng s
+  /\ st_toks s' = st_toks s /\ st_keys s' = st_keys s /\ immediate s' = immediate s
+  /\ enable_warnings s' = enable_warnings s /\ enable_tracing s' = enable_tracing s
+  /\ pow_oracle s' = pow_oracle s.
+Proof.
+  intros fuel n s toks v text first more consumed Htoks i Hi Hv Hnp Hin Hp Hc Hf Hn. cbv zeta.
+  rewrite (input_reenter fuel n s toks v text first more consumed) by assumption.
+  cbn [fst snd]. repeat split; reflexivity.
+Qed.
+
+(* "the same request again": but for the REENTER record and the hook counter,
+   the state after a refused reply IS the state of the first request. *)
+Corollary input_reenter_same_request : forall fuel n s toks v text first more consumed,
+  fst (cur_tokens s) = Ok toks ->
+  let i := loc_idx (loc s) in
+  nth_error toks i = Some TInput ->
+  nth_error toks (S i) = Some (TSymbol v) ->
+  nth_error toks (S (S i)) <> Some TLeftParen ->
+  input s = Some text ->
+  parse_data text = (first :: more, consumed) ->
+  coerce_data v first = Err EDataTypeMismatch None ->
+  1 <= fuel -> n < max_nesting ->
+  let first_request := snd (evaluate_statement fuel n (set_input None s)) in
+  evaluate_statement fuel n s
+  = (Ok tt, set_reads (3 + reads first_request)
+              (set_outputs (outputs first_request ++ [OReenter]) first_request)).
+Proof.
+  intros fuel n s toks v text first more consumed Htoks i Hi Hv Hnp Hin Hp Hc Hf Hn. cbv zeta.
+  rewrite (input_reenter fuel n s toks v text first more consumed) by assumption.
+  rewrite (input_awaits fuel n (set_input None s) toks); try assumption; try reflexivity;
+    [|exact (cur_tokens_taken s toks Htoks)].
+  cbn [snd]. f_equal.
+  destruct s as [? ? ? [? ?] ? ? ? ? ? ? ? ? ? ? ? ? ? ? ?]; cbn. rewrite <- app_assoc. reflexivity.
+Qed.
+
+(* Every reply to a scalar INPUT is either stored or refused with REENTER:
+   the other branches of the model's match are dead. *)
+Theorem input_reply_total : forall fuel n s toks v text,
+  fst (cur_tokens s) = Ok toks ->
+  let i := loc_idx (loc s) in
+  nth_error toks i = Some TInput ->
+  nth_error toks (S i) = Some (TSymbol v) ->
+  nth_error toks (S (S i)) <> Some TLeftParen ->
+  input s = Some text ->
+  1 <= fuel -> n < max_nesting ->
+  exists first more consumed,
+    parse_data text = (first :: more, consumed)
+    /\ ((exists val, coerce_data v first = Ok val
+                     /\ variables (snd (evaluate_statement fuel n s)) = alist_set v val (variables s)
+                     /\ state (snd (evaluate_statement fuel n s)) = state s)
+        \/ (coerce_data v first = Err EDataTypeMismatch None
+            /\ ends_with_dollar v = false /\ (exists t, first = DStr t)
+            /\ variables (snd (evaluate_statement fuel n s)) = variables s
+            /\ state (snd (evaluate_statement fuel n s)) = AwaitingInput))
+    /\ fst (evaluate_statement fuel n s) = Ok tt.
+Proof.
+  intros fuel n s toks v text Htoks i Hi Hv Hnp Hin Hf Hn.
+  destruct (parse_data_nonempty text) as (first & more & consumed & Hp).
+  exists first, more, consumed. split; [exact Hp|].
+  destruct (coerce_data_cases v first) as [[val Hc]|(Hc & Hd & Ht)].
+  - rewrite (input_accepts_scalar fuel n s toks v text first more consumed val) by assumption.
+    cbn [fst snd]. split; [|reflexivity]. left. exists val. repeat split; try reflexivity. exact Hc.
+  - rewrite (input_reenter fuel n s toks v text first more consumed) by assumption.
+    cbn [fst snd]. split; [|reflexivity]. right. repeat split; try reflexivity; assumption.
+Qed.
